@@ -7,6 +7,7 @@
 package main
 
 import (
+	"encoding/json"
 	"flag"
 	"fmt"
 	"os"
@@ -14,7 +15,11 @@ import (
 	"runtime/debug"
 	"runtime/pprof"
 
+	"time"
+
+	"github.com/gethiox/HIDI/internal/pkg/input"
 	"github.com/gethiox/HIDI/internal/pkg/logger"
+	"github.com/gethiox/HIDI/internal/pkg/midi"
 	"github.com/gethiox/HIDI/internal/verif/vutil"
 )
 
@@ -62,6 +67,7 @@ func main() {
 	shard := flag.Int("shard", 0, "")
 	nshards := flag.Int("nshards", 1, "")
 	prof := flag.String("cpuprofile", "", "")
+	replayFile := flag.String("replay", "", "replay a violation record (JSON written by vcheck) through the real ProcessEvents, without the explorer")
 	flag.Parse()
 	if *prof != "" {
 		f, _ := os.Create(*prof)
@@ -96,6 +102,9 @@ func main() {
 		}
 		return
 	}
+	if *replayFile != "" {
+		os.Exit(replayViolation(*prop, *tier, *replayFile))
+	}
 	checkDisconnect = *prop == "C01" // the disconnect clause belongs to C01; other properties only use the replay for conformance
 	jobs := jobsFor(*prop, *tier)
 	if *list {
@@ -129,4 +138,93 @@ func main() {
 		pprof.StopCPUProfile()
 		os.Exit(2)
 	}
+}
+
+// replayViolation re-executes the history of a violation record on a fresh device through the real
+// ProcessEvents loop and prints what it emits (no explorer, no monitors).
+func replayViolation(prop, tier, file string) int {
+	b, err := os.ReadFile(file)
+	if err != nil {
+		fmt.Println(err)
+		return 2
+	}
+	var rec struct {
+		Class  string
+		What   string
+		Detail struct {
+			Scenario string
+			Mode     string
+			History  []string
+		}
+	}
+	if err := json.Unmarshal(b, &rec); err != nil {
+		fmt.Println(err)
+		return 2
+	}
+	for _, j := range jobsFor(prop, tier) {
+		if j.name != rec.Detail.Scenario+"/"+rec.Detail.Mode {
+			continue
+		}
+		s := j.sc
+		var evs []Event
+		for _, h := range rec.Detail.History {
+			found := false
+			for i := range s.Alpha {
+				for _, v := range []int32{0, 1, 2} {
+					if (Event{i, v}).String(s.Alpha) == h && !s.Alpha[i].IsAxis {
+						evs = append(evs, Event{i, v})
+						found = true
+					}
+				}
+				if s.Alpha[i].IsAxis {
+					for _, p := range s.Alpha[i].Pos {
+						if (Event{i, p}).String(s.Alpha) == h {
+							evs = append(evs, Event{i, p})
+							found = true
+						}
+					}
+				}
+			}
+			if !found {
+				fmt.Println("cannot map history element", h)
+				return 2
+			}
+		}
+		out := make(chan midi.Event, 1<<16)
+		dev, err := s.D.Build(out, make(chan os.Signal, 64))
+		if err != nil {
+			fmt.Println(err)
+			return 2
+		}
+		in := make(chan *input.InputEvent)
+		done := make(chan struct{})
+		go func() { dev.ProcessEvents(in); close(done) }()
+		r := &recv{sounding: map[[2]byte]bool{}}
+		flush := func(tag string) {
+			for len(out) > 0 {
+				m := <-out
+				r.apply(m)
+				fmt.Printf("   %s emits % x\n", tag, []byte(m))
+			}
+		}
+		for _, ev := range evs {
+			in <- inputEvent(s.Alpha, ev)
+			in <- barrier
+			flush(ev.String(s.Alpha))
+		}
+		fmt.Println("sounding before disconnect:", r.sounding)
+		close(in)
+		select {
+		case <-done:
+			flush("disconnect clean-up")
+			fmt.Println("ProcessEvents returned; sounding after disconnect:", r.sounding)
+		case <-time.After(60 * time.Second):
+			flush("disconnect clean-up")
+			fmt.Println("ProcessEvents did NOT return within 60 s")
+		}
+		fmt.Println("recorded violation:", rec.Class, "-", rec.What)
+		return 0
+	}
+	fmt.Println("scenario not found:", rec.Detail.Scenario, rec.Detail.Mode)
+	return 2
 }
